@@ -216,3 +216,51 @@ def run(ck: Check):
                                                     "json.dump / json.load (text <-> tree; sampled: json.loads(render(o)) == encode(o))",
                                                     "recorded converter table (ConverterFactory wrapped in the impl process)"],
                      assumptions=axioms)
+
+
+# ------------------------------------------------------------------ witness file for Properties/C04.v
+def write_witness_file(path=None):
+    """Run the witnesses of the known findings on the implementation and write their exported
+    universe / instance / recorded conversions as Gallina definitions (coq/Proofs/DictCodecWitness.v).
+    Regenerate with:  cd /verif && /venv/bin/python harness/c04.py"""
+    import os
+    from common import COQ
+    wit = witness_models()
+    # plus a plain instance inside the proved slice (non-vacuity of the guards)
+    P = lambda t, v: {"__p__": t, "v": v}   # noqa: E731
+    d = {"module_ns": None, "enums": [], "root": "R", "slices": ["F1"], "classes": [
+        {"name": "R", "meta": {"namespace": "urn:r"}, "base": None, "fields": [
+            F("id", "Attribute", ("prim", "int"), optional=True),
+            F("tags", "Element", ("prim", "int"), tokens=True, optional=False),
+            F("kid", "Element", ("class", "K"), list=True),
+            F("note", "Element", ("prim", "str"), optional=True)]},
+        {"name": "K", "meta": {}, "base": None, "fields": [F("v", "Text", ("prim", "Decimal"), optional=True)]}]}
+    rec = {"__cls__": "R", "fields": {"id": P("int", 7), "tags": [P("int", 1), P("int", -2)],
+                                      "kid": [{"__cls__": "K", "fields": {"v": P("Decimal", "1.50")}}, {"__cls__": "K", "fields": {"v": None}}],
+                                      "note": None}}
+    wit = wit + [("inside-slice", d, rec, "dict"), ("inside-slice-filter-none", d, rec, "filter_none")]
+    models = [{"src": genmodels.render_source(dd), "classes": [c["name"] for c in dd["classes"]], "enums": [],
+               "cases": [{"recipe": r, "root": dd["root"], "factory": fac, "ignore": False}]} for _, dd, r, fac in wit]
+    res = run_impl("impl_c04.py", {"models": models})
+    out = ["(* Proofs/DictCodecWitness.v — GENERATED by harness/c04.py (write_witness_file): the witnesses of the",
+           "   C04 findings as exported from the implementation (real XmlContext metadata, instance,",
+           "   recorded converter calls and observed outcomes).  Used by the refutation lemmas. *)",
+           "From Coq Require Import NArith ZArith List Bool.",
+           "From XV Require Import Base.Str Base.Eqb Model.Bind Model.EventGen Model.DictCodec Model.DictCodecCorr.",
+           "Import ListNotations.", ""]
+    for i, ((cls, _d, _r, _f), rm) in enumerate(zip(wit, res["models"])):
+        name = "w_" + cls.replace("-", "_")
+        assert rm["universe"] and rm["cases"][0]["case"], (cls, rm)
+        out.append(f"(* {cls} *)")
+        out.append(f"Definition {name}_u : universe := {rm['universe']}.")
+        out.append(f"Definition {name}_g : generics := {rm['generics']}.")
+        out.append(f"Definition {name}_k : dc_case := {rm['cases'][0]['case'].replace('mk_dc_case G ', f'mk_dc_case {name}_g ', 1)}.")
+        out.append("")
+    path = path or os.path.join(COQ, "Proofs", "DictCodecWitness.v")
+    with open(path, "w") as fh:
+        fh.write("\n".join(out))
+    return path
+
+
+if __name__ == "__main__":
+    print(write_witness_file())
